@@ -45,6 +45,88 @@ SPECS["C20"] = dict(
                  "element type int stands for every T (the code is generic and never inspects T)"],
 )
 
+SPECS["C01"] = dict(
+    title="reliable ordered stream: reader sees a prefix of what was written",
+    level="exploration",
+    technique="rapid-generated configurations x fault scripts x app scripts; reference model = log of accepted writes, compared at every read",
+    level_text="TODO",
+    level_note="TODO",
+    design_ref="5/C01",
+    rule="TODO",
+    jobs=[
+        rapid("TestC01Core", 1200, 30000, sq=4, st=16),
+    ],
+)
+
+SPECS["C02"] = dict(
+    title="eventual delivery: a healed network always drains the backlog",
+    level="fault_enumeration",
+    technique="bounded liveness in virtual time: exhaustive fate assignment to the first K datagrams + rapid-sampled long fault scripts with outages, then a fair network",
+    level_text="TODO",
+    level_note="TODO",
+    design_ref="5/C02",
+    rule="TODO",
+    jobs=[
+        plain("TestC02CoreExhaustive", sq=4, st=16, env={"C02_K": {Q: 6, T: 8}, "C02_NCFG": {Q: 6, T: 12}}),
+        rapid("TestC02CoreSampled", 500, 15000, sq=4, st=16),
+    ],
+)
+
+SPECS["C04"] = dict(
+    title="window discipline: bounded buffering, truthful window, backpressure",
+    level="exploration",
+    technique="state invariants after every API call / datagram over rapid-generated traffic, plus a generated hostile peer; wire-level admission model",
+    level_text="TODO",
+    level_note="TODO",
+    design_ref="5/C04",
+    rule="TODO",
+    jobs=[
+        rapid("TestC04Core", 500, 15000, sq=4, st=16),
+        rapid("TestC04Hostile", 6000, 300000, sq=2, st=16),
+        plain("TestC04KnownCwndReopen", sq=1, st=1),
+    ],
+)
+
+SPECS["C18"] = dict(
+    title="no retransmission on a clean path; RTO within bounds",
+    level="exploration",
+    technique="rapid-generated clean-path configurations (wire count of every sn + SNMP deltas) and hostile ACK/timestamp sequences (RTO bound after every Input)",
+    level_text="TODO",
+    level_note="TODO",
+    design_ref="5/C18",
+    rule="TODO",
+    jobs=[
+        rapid("TestC18CleanPath", 2500, 60000, sq=2, st=16),
+        rapid("TestC18RTOBounds", 5000, 200000, sq=2, st=16),
+    ],
+)
+
+SPECS["C10"] = dict(
+    title="no datagram exceeds the MTU; accepted MTUs are safe",
+    level="exploration",
+    technique="rapid-generated MTU values (any int) set before/during generated traffic; size oracle at the output callback / PacketConn boundary, transfer must still complete",
+    level_text="TODO",
+    level_note="TODO",
+    design_ref="5/C10",
+    rule="TODO",
+    jobs=[
+        rapid("TestC10Core", 1500, 40000, sq=4, st=16),
+    ],
+)
+
+SPECS["C12"] = dict(
+    title="behaviour invariant under sequence-number and clock wrap-around",
+    level="exploration",
+    technique="metamorphic testing: each generated run is executed unshifted and with drawn sn/clock offsets; normalised datagram traces must be identical",
+    level_text="TODO",
+    level_note="TODO",
+    design_ref="5/C12",
+    rule="TODO",
+    jobs=[
+        rapid("TestC12Core", 800, 25000, sq=4, st=16),
+    ],
+)
+
 NOTES = ("Every check is `./check <id> quick|thorough`; it rebuilds the harness against /repo's working tree with -tags verif, "
          "runs rapid / enumeration jobs in parallel shards seeded from VERIF_SEED, writes evidence/<id>.json, prints "
          "KNOWN-FINDING lines for entries of known_findings.jsonl that still reproduce, and exits 1 with a VIOLATION line otherwise. "
